@@ -143,6 +143,9 @@ fn expr(m: M, e: &Expr) -> Expr {
     match e {
         Expr::Nil | Expr::True | Expr::False | Expr::Vararg => e.clone(),
         Expr::Str { value, .. } if m.markers && is_printed_marker(value) => Expr::str(b"@L".to_vec()),
+        // a literal too large for a double is infinite; the generators write it `(1/0)`, the same
+        // value: for the round-trip comparison both are the division
+        Expr::Number { value, .. } if m.parens && value.is_infinite() => Expr::Binary(BinOp::Div, Box::new(Expr::num(1.0)), Box::new(Expr::num(0.0))),
         Expr::Number { value, .. } if m.erase => Expr::num(*value),
         Expr::Str { value, .. } if m.erase => Expr::str(value.clone()),
         Expr::Number { .. } | Expr::Str { .. } | Expr::Name(_) => e.clone(),
